@@ -50,12 +50,15 @@ CONSTANTS
     MaxKw,     \* most keyword arguments per call
     MaxArgs,   \* most arguments per call
     FnFilter,  \* "all" | "nogeneric3" (first-built entries without the three-argument functions; quick tier)
-               \* | "new" (the entries of LibNew: defaults / parameter kinds / call forms / returns) | "old" (the others)
+               \* | "new" (the entries of LibNew: defaults / parameter kinds / call forms / returns) | "old" (first-built)
+               \* | "gen" (the entries of LibGen: user-defined generic classes, their constructors and methods)
     MaxSess,   \* most calls per session (0: no sessions)
     Shapes,    \* how the arguments are written: {"plain"} f(a, k=b) and/or "star" f(*(a,), **{"k": b}),
                \* "mixed" f(a, *(b,), **{"k": c}) (first positional explicit), "mixedk" f(*(a,), k=b) (keywords explicit)
     FixProtoCache,  \* TRUE: model the repair proposed in proposed/C06-fix-1.diff (cache keyed by both values)
-    Bug        \* "none"; sensitivity self-tests: "varargs_unchecked", "no_inherent_bounds", "default_by_equality"
+    Bug        \* "none"; sensitivity self-tests: "varargs_unchecked", "no_inherent_bounds", "default_by_equality",
+               \* "ctor_self_unmatched" (constructor of a class without type parameters of its own binds self without
+               \* matching the declared self type against the class)
 
 (***************************************************************************)
 (* Terms added to Values.tla                                               *)
@@ -120,7 +123,10 @@ TvDecls == <<
     [n |-> "S", bound |-> << >>, cons |-> << >>],
     [n |-> "TB", bound |-> <<TInt>>, cons |-> << >>],
     [n |-> "TA", bound |-> <<Typed("A")>>, cons |-> << >>],
-    [n |-> "TC", bound |-> << >>, cons |-> <<TInt, TStr>>] >>
+    [n |-> "TC", bound |-> << >>, cons |-> <<TInt, TStr>>],
+    [n |-> "KT", bound |-> << >>, cons |-> << >>],
+    [n |-> "VT", bound |-> << >>, cons |-> << >>],
+    [n |-> "NB", bound |-> <<TFloat>>, cons |-> << >>] >>
 TvDecl(n) == CHOOSE d \in {TvDecls[i] : i \in 1..Len(TvDecls)} : d.n = n
 
 \* parameters: kind "pk" positional-or-keyword | "va" *args | "vk" **kwargs | "ko" keyword-only;
@@ -313,13 +319,93 @@ LibNew == <<
     PF("noann_c", <<P("x", TInt)>>, NoAnn, Body("const", << >>, SA), << >>, << >>),
     PF("p_none", <<P("x", TInt)>>, Known(NONE), Body("const", << >>, NONE), << >>, << >>),
     PF("never", <<P("x", TInt)>>, Never, Body("raise", << >>, NONE), << >>, << >>) >>
-Lib == LibOld \o LibNew
-NewIds == {LibNew[i].id : i \in 1..Len(LibNew)}
+(***************************************************************************)
+(* User-defined GENERIC CLASSES, their constructors and methods.           *)
+(* The classes are data (the harness renders them from it):                *)
+(*   n     class name;  tps = its own type parameters (Generic[...])       *)
+(*   base  << >> or <<[c, args]>>: the (possibly subscripted) base class   *)
+(*   init  "own" (def __init__(self, <iparams>): self.item = item)         *)
+(*         | "dataclass" (@dataclass with the fields iparams)              *)
+(*         | "inherit" (no __init__ / field of its own)                    *)
+(*   meths methods defined in the class, over its first type parameter P:  *)
+(*         "get" (self) -> P: return self.item                             *)
+(*         "put" (self, x: P) -> None: self.item = x                       *)
+(*         "make" @classmethod (cls, x: P) -> n[P]: return cls(x)          *)
+(* An instance holding `item` is the object [c |-> class, items |-> <<item>>].*)
+(***************************************************************************)
+GBase(c, args) == [c |-> c, args |-> args]
+GClass(n, tps, base, init, iparams, meths) == [n |-> n, tps |-> tps, base |-> base, init |-> init, iparams |-> iparams, meths |-> meths]
+GClasses == <<
+    GClass("GBox", <<"T">>, << >>, "own", <<P("item", TV("T"))>>, <<"get", "put", "make">>),
+    GClass("IntBox", << >>, <<GBase("GBox", <<TInt>>)>>, "inherit", << >>, << >>),                     \* class IntBox(GBox[int])
+    GClass("SmallIntBox", << >>, <<GBase("IntBox", << >>)>>, "inherit", << >>, << >>),                \* depth 2
+    GClass("StrBox", << >>, <<GBase("GBox", <<TStr>>)>>, "inherit", << >>, << >>),
+    \* class PairBox(GBox[tuple[KT, VT]], Generic[KT, VT]): re-parameterises the base
+    GClass("PairBox", <<"KT", "VT">>, <<GBase("GBox", <<SeqT("tuple", <<One(TV("KT")), One(TV("VT"))>>)>>)>>, "inherit", << >>, << >>),
+    \* class OwnBox(GBox[int]): def __init__(self, item: int, tag: str = "a"): super().__init__(item)
+    GClass("OwnBox", << >>, <<GBase("GBox", <<TInt>>)>>, "own", <<P("item", TInt), PD("tag", TStr, SA)>>, << >>),
+    GClass("NumBox", <<"NB">>, << >>, "own", <<P("item", TV("NB"))>>, <<"get">>),                     \* NB bound=float
+    GClass("ConBox", <<"TC">>, << >>, "own", <<P("item", TV("TC"))>>, <<"get">>),                     \* TC in (int, str)
+    GClass("DBox", <<"T">>, << >>, "dataclass", <<P("item", TV("T"))>>, <<"get">>),
+    GClass("IntDBox", << >>, <<GBase("DBox", <<TInt>>)>>, "inherit", << >>, << >>) >>
+GNames == {"GBox", "IntBox", "SmallIntBox", "StrBox", "PairBox", "OwnBox", "NumBox", "ConBox", "DBox", "IntDBox"}
+GParamNames == GNames \cup {"HasGet"}
+ASSUME GNames = {GClasses[i].n : i \in 1..Len(GClasses)}
+GC(n) == CHOOSE k \in {GClasses[i] : i \in 1..Len(GClasses)} : k.n = n
+GI(c, item) == [c |-> c, v |-> "", items |-> <<item>>]
+RECURSIVE GAnc(_)
+GAnc(c) == IF GC(c).base = << >> THEN {c} ELSE {c} \cup GAnc(GC(c).base[1].c)
+\* the receiver the harness writes for a method call on a constructed instance: C(<a fitting literal>)
+GCanon(c) == IF c = "StrBox" THEN SA ELSE I1
+
+\* mk "gctor"    C(args)                 recv "ctor"
+\*    "gctorget" C(args).get()           recv "ctorget"   (two calls on one line: the diagnostics of both count)
+\*    "gmeth"    C(<canon>).put(args)    recv "ginst"
+\*    "gcmeth"   C.make(args)            recv "cls"
+\*    "gspec"    GBox[int](args)          recv "spec"      (decl = the parameters the explicit specialisation declares)
+\* tvs = the type variables the DECLARED signature leaves open (what the property quantifies over)
+GMks == {"gctor", "gctorget", "gmeth", "gcmeth", "gspec"}
+GFn(id, cls, name, mk, recv, body, tvs, kws) == Fn(id, cls, name, mk, recv, << >>, NoAnn, body, tvs, kws)
+GNew == Body("gnew", <<1>>, NONE)
+LibGen == <<
+    GFn("GBox", "GBox", "__init__", "gctor", "ctor", GNew, <<"T">>, <<"item">>),
+    GFn("IntBox", "IntBox", "__init__", "gctor", "ctor", GNew, << >>, <<"item">>),
+    GFn("SmallIntBox", "SmallIntBox", "__init__", "gctor", "ctor", GNew, << >>, <<"item">>),
+    GFn("StrBox", "StrBox", "__init__", "gctor", "ctor", GNew, << >>, <<"item">>),
+    GFn("PairBox", "PairBox", "__init__", "gctor", "ctor", GNew, <<"KT", "VT">>, <<"item">>),
+    GFn("OwnBox", "OwnBox", "__init__", "gctor", "ctor", GNew, << >>, <<"tag">>),
+    GFn("NumBox", "NumBox", "__init__", "gctor", "ctor", GNew, <<"NB">>, <<"item">>),
+    GFn("ConBox", "ConBox", "__init__", "gctor", "ctor", GNew, <<"TC">>, <<"item">>),
+    GFn("DBox", "DBox", "__init__", "gctor", "ctor", GNew, <<"T">>, <<"item">>),
+    GFn("IntDBox", "IntDBox", "__init__", "gctor", "ctor", GNew, << >>, <<"item">>),
+    GFn("GBox(_).get", "GBox", "get", "gctorget", "ctorget", BP(1), <<"T">>, << >>),
+    GFn("IntBox(_).get", "IntBox", "get", "gctorget", "ctorget", BP(1), << >>, <<"item">>),
+    GFn("SmallIntBox(_).get", "SmallIntBox", "get", "gctorget", "ctorget", BP(1), << >>, << >>),
+    GFn("StrBox(_).get", "StrBox", "get", "gctorget", "ctorget", BP(1), << >>, << >>),
+    GFn("PairBox(_).get", "PairBox", "get", "gctorget", "ctorget", BP(1), <<"KT", "VT">>, << >>),
+    GFn("OwnBox(_).get", "OwnBox", "get", "gctorget", "ctorget", BP(1), << >>, << >>),
+    GFn("NumBox(_).get", "NumBox", "get", "gctorget", "ctorget", BP(1), <<"NB">>, << >>),
+    GFn("ConBox(_).get", "ConBox", "get", "gctorget", "ctorget", BP(1), <<"TC">>, << >>),
+    GFn("DBox(_).get", "DBox", "get", "gctorget", "ctorget", BP(1), <<"T">>, << >>),
+    GFn("IntDBox(_).get", "IntDBox", "get", "gctorget", "ctorget", BP(1), << >>, << >>),
+    GFn("IntBox(1).put", "IntBox", "put", "gmeth", "ginst", Body("const", << >>, NONE), << >>, <<"x">>),
+    GFn("SmallIntBox(1).put", "SmallIntBox", "put", "gmeth", "ginst", Body("const", << >>, NONE), << >>, << >>),
+    GFn("StrBox('a').put", "StrBox", "put", "gmeth", "ginst", Body("const", << >>, NONE), << >>, << >>),
+    GFn("GBox.make", "GBox", "make", "gcmeth", "cls", GNew, <<"T">>, <<"x">>),
+    GFn("IntBox.make", "IntBox", "make", "gcmeth", "cls", GNew, << >>, << >>),
+    Fn("GBox[int]", "GBox", "__init__", "gspec", "spec", <<P("item", TInt)>>, NoAnn, GNew, << >>, <<"item">>),
+    \* a generic class / a generic Protocol (class HasGet(Protocol[T]): def get(self) -> T) as a PARAMETER type
+    Fn("unbox", "", "unbox", "plain", "fn", <<P("b", Generic("GBox", <<TV("T")>>))>>, TV("T"), Body("unboxitem", <<1>>, NONE), <<"T">>, << >>),
+    Fn("first", "", "first", "plain", "fn", <<P("b", Generic("HasGet", <<TV("T")>>))>>, TV("T"), Body("unboxitem", <<1>>, NONE), <<"T">>, << >>) >>
+Lib == LibOld \o LibNew \o LibGen
+GenIds == {LibGen[i].id : i \in 1..Len(LibGen)}
+NewIds == {LibNew[i].id : i \in 1..Len(LibNew)} \cup GenIds       \* everything that is not first-built
 
 LibSet == {Lib[i] : i \in 1..Len(Lib)}
 ThreeArg == {"f_3", "f_vakw"}
 ActiveFns == CASE FnFilter = "all" -> LibSet
-               [] FnFilter = "new" -> {f \in LibSet : f.id \in NewIds}
+               [] FnFilter = "new" -> {f \in LibSet : f.id \in NewIds \ GenIds}
+               [] FnFilter = "gen" -> {f \in LibSet : f.id \in GenIds}
                [] FnFilter = "old" -> {f \in LibSet : f.id \notin NewIds}
                [] OTHER -> {f \in LibSet : f.id \notin ThreeArg \cup NewIds}       \* "nogeneric3"
 FnOf(id) == CHOOSE f \in LibSet : f.id = id
@@ -341,6 +427,14 @@ ClassArgs == <<ClassObj("A"), ClassObj("B"), ClassObj("int"), OA, I1>>
 \* key, a non-string key; a literal that is no dict
 TDArgs == <<Cont("dict", <<KV(SA, I1)>>), Cont("dict", <<KV(SA, SA)>>), Cont("dict", << >>),
             Cont("dict", <<KV(SA, I1), KV(SB, SA)>>), Cont("dict", <<KV(SB, I1)>>), Cont("dict", <<KV(I1, SA)>>), I1>>
+\* the generic-class slice: a small literal menu; tuples where tuple[K, V] is declared; constructed instances (written
+\* IntBox(1), Box('a'), ...) and a literal where a generic class / the protocol HasGet is declared
+LitsG == <<I1, BT, SA, F15, NONE>>
+TupArgs == <<Cont("tuple", <<I1, SA>>), Cont("tuple", <<I1>>), I1>>
+BoxArgs == <<GI("IntBox", I1), GI("StrBox", SA), GI("GBox", SA), GI("SmallIntBox", I1), GI("DBox", I1), I1>>
+GChoices(ann) == CASE ann.k = "seq" -> TupArgs
+                   [] ann.k = "generic" /\ ann.c \in GParamNames -> BoxArgs
+                   [] OTHER -> LitsG
 ArgChoices(ann) == CASE ann.k = "callable" -> CallableArgs [] ann.k = "subclass" -> ClassArgs
                      [] ann.k = "typeddict" -> TDArgs [] OTHER -> Lits
 
@@ -364,7 +458,25 @@ HasKind(ps, kd) == \E i \in 1..Len(ps) : ps[i].kind = kd
 (* call binds at all.  RefParams is what CPython binds against: the        *)
 (* function's parameters without the receiver.                             *)
 (***************************************************************************)
-RefParams(fn) == IF fn.mk = "staticmethod" \/ fn.mk = "plain" THEN fn.decl ELSE Tail(fn.decl)
+\* What a generic class DECLARES for the parameters of its (possibly inherited) __init__ / of the method `put` /
+\* `make` defined in its root class: the def found along the bases, with the type parameters of every base replaced
+\* by the arguments the subclass gives that base (class IntBox(GBox[int]): item: T becomes item: int; at any depth).
+RECURSIVE RSubst(_, _), RefDecl(_, _)
+RefDecl(c, what) ==
+    LET k == GC(c)
+    IN IF what = "init" /\ k.init # "inherit" THEN k.iparams
+       ELSE IF what = "x" /\ k.base = << >> THEN <<P("x", TV(k.tps[1]))>>
+       ELSE LET b == k.base[1]
+                bt == GC(b.c).tps
+                sg == [n \in {bt[j] : j \in 1..Len(bt)} |-> b.args[CHOOSE j \in 1..Len(bt) : bt[j] = n]]
+                ps == RefDecl(b.c, what)
+            IN [i \in 1..Len(ps) |-> [ps[i] EXCEPT !.ann = RSubst(@, sg)]]
+RefParams(fn) ==
+    CASE fn.mk \in {"gctor", "gctorget"} -> RefDecl(fn.cls, "init")
+      [] fn.mk \in {"gmeth", "gcmeth"} -> RefDecl(fn.cls, "x")
+      [] fn.mk = "gspec" -> fn.decl
+      [] fn.mk = "staticmethod" \/ fn.mk = "plain" -> fn.decl
+      [] OTHER -> Tail(fn.decl)
 
 RefBinds(ps, call) ==
     /\ Len(call.pos) <= NPk(ps) \/ HasKind(ps, "va")
@@ -401,7 +513,7 @@ RefBoundObj(ps, call, i) ==
 (***************************************************************************)
 (* Ref: membership, substitution, admissible type-variable assignments     *)
 (***************************************************************************)
-RECURSIVE MemberX(_, _)
+RECURSIVE MemberX(_, _), GMember(_, _)
 SubT(S, T) == HasAny(S) \/ HasAny(T) \/ \A o \in Objects : MemberX(o, S) => MemberX(o, T)
 \* Member of Values.tla, extended to the library classes and to functions: a function belongs to
 \* Callable[[P], R] when it accepts every member of P and everything it returns is a member of R
@@ -409,6 +521,8 @@ MemberX(o, T) ==
     IF T.k \in {"ann", "initvar"} THEN MemberX(o, T.t)      \* Annotated[t, ...] and InitVar[t] denote t
     ELSE IF T.k = "any" THEN TRUE
     ELSE IF T.k = "union" THEN \E i \in 1..Len(T.ms) : MemberX(o, T.ms[i])
+    ELSE IF o.c \in GNames THEN GMember(o, T)
+    ELSE IF T.k \in {"typed", "generic"} /\ T.c \in GParamNames THEN FALSE     \* no instance of a generic class
     ELSE IF T.k = "callable"
          THEN o.c = "function" /\ Len(T.ps) = 1 /\ SubT(T.ps[1], Helper(o.v).p) /\ SubT(Helper(o.v).r, T.r)
     ELSE IF o.c \in XClasses
@@ -417,8 +531,20 @@ MemberX(o, T) ==
               \/ T.k = "generic" /\ T.c = "Iterable" /\ o.c \in IterClasses /\ MemberX(Yields(o.c), T.args[1])
     ELSE Member(o, T)
 
+\* an instance o of a generic class belongs to C[args] when its class is C or a subclass and the item it holds belongs
+\* to what C declares for the item with C's parameters replaced by args; to the protocol HasGet[X] when what get()
+\* returns (the item) belongs to X
+GMember(o, T) ==
+    CASE T.k = "typed" -> T.c \in GAnc(o.c) \cup {"object"}
+      [] T.k = "known" -> T.o = o
+      [] T.k = "generic" /\ T.c = "HasGet" -> MemberX(o.items[1], T.args[1])
+      [] T.k = "generic" /\ T.c \in GAnc(o.c) ->
+            LET tp == GC(T.c).tps
+            IN MemberX(o.items[1], RSubst(RefDecl(T.c, "init")[1].ann,
+                                          [n \in {tp[j] : j \in 1..Len(tp)} |-> T.args[CHOOSE j \in 1..Len(tp) : tp[j] = n]]))
+      [] OTHER -> FALSE
+
 \* substitution of type variables by a function name -> term (no simplification: Ref side)
-RECURSIVE RSubst(_, _)
 RSubst(T, sg) ==
     CASE T.k = "typevar" -> sg[T.n]
       [] T.k = "generic" -> Generic(T.c, [i \in 1..Len(T.args) |-> RSubst(T.args[i], sg)])
@@ -469,6 +595,8 @@ RefResult(fn, call) ==
          [] b.k = "self" -> Ret(b.o)
          [] b.k = "raise" -> Raises
          [] b.k = "newnt" -> Ret(Cont("NT", [i \in 1..Len(ps) |-> RefBoundObj(ps, call, i)]))
+         [] b.k = "gnew" -> Ret(GI(fn.cls, a(1)))                                  \* the new instance holding the item
+         [] b.k = "unboxitem" -> IF a(1).c \in GNames THEN Ret(a(1).items[1]) ELSE Raises    \* return b.get()
          [] b.k \in {"tuple", "list"} -> Ret(Cont(b.k, [i \in 1..Len(b.is) |-> a(i)]))
          [] b.k = "dict" -> IF Unhashable(a(1)) THEN Raises ELSE Ret(Cont("dict", <<KV(a(1), a(2))>>))
          [] b.k = "call" -> IF a(1).c # "function" THEN Raises
@@ -491,7 +619,11 @@ RefResult(fn, call) ==
 (***************************************************************************)
 \* name_check_visitor: a literal whose members are all literals is a KnownValue; `A()` is TypedValue(A)
 TypedExpr(o) == o.c \in {"A", "B", "ItI", "ItS"}
-ImplArgVal(o) == IF TypedExpr(o) THEN Typed(o.c) ELSE Known(o)
+\* an argument written C(item) with a fitting literal: the value of that constructor call (ImplGCall "gctor" below:
+\* TypedValue(C) for a class without parameters of its own, C[Literal[item]] for the unbounded one-parameter classes)
+ImplArgVal(o) ==
+    IF o.c \in GNames THEN (IF GC(o.c).tps = << >> THEN Typed(o.c) ELSE Generic(o.c, <<Known(o.items[1])>>))
+    ELSE IF TypedExpr(o) THEN Typed(o.c) ELSE Known(o)
 
 Bnd(v, src) == [val |-> v, src |-> src]
 ImplBoundAt(ps, call, i) ==
@@ -594,12 +726,49 @@ ImplSolve(bounds) ==
 R(ok, bs) == [ok |-> ok, bs |-> bs]
 Fail == R(FALSE, << >>)
 
+\* ---- user-defined generic classes
+\* substitute_typevars with a PARTIAL map (type variables outside `names` stay)
+RECURSIVE PSubst(_, _, _)
+PSubst(v, names, vals) ==
+    CASE v.k = "typevar" -> IF \E j \in 1..Len(names) : names[j] = v.n THEN vals[CHOOSE j \in 1..Len(names) : names[j] = v.n] ELSE v
+      [] v.k = "generic" -> Generic(v.c, [i \in 1..Len(v.args) |-> PSubst(v.args[i], names, vals)])
+      [] v.k = "seq" -> SeqT(v.c, [i \in 1..Len(v.ms) |-> [many |-> v.ms[i].many, t |-> PSubst(v.ms[i].t, names, vals)]])
+      [] v.k = "union" -> IF v.ms = << >> THEN v ELSE ImplUnite([i \in 1..Len(v.ms) |-> PSubst(v.ms[i], names, vals)])
+      [] OTHER -> v
+\* ArgSpecCache.get_generic_bases(typ, generic_args) (arg_spec.py:1016-1075): the generic arguments class c -- its own
+\* parameters bound to `args` -- gives its ancestor d: the base's subscript with c's parameters substituted, composed
+\* along the chain of bases.  NotFound: d is no ancestor of c.
+RECURSIVE ImplGBArgs(_, _, _)
+ImplGBArgs(c, args, d) ==
+    IF c = d THEN Found(args)
+    ELSE LET k == GC(c)
+         IN IF k.base = << >> THEN NotFound
+            ELSE ImplGBArgs(k.base[1].c, [i \in 1..Len(k.base[1].args) |-> PSubst(k.base[1].args[i], k.tps, args)], d)
+RECURSIVE ImplRoot(_)
+ImplRoot(c) == IF GC(c).base = << >> THEN c ELSE ImplRoot(GC(c).base[1].c)
+ImplValArgs(v) == IF v.k = "generic" THEN v.args ELSE << >>
+\* what get() of the value's class returns: the provider's `-> P` with the provider's parameters replaced by what the
+\* value gives the provider (attributes.py:296-335 _get_attribute_from_typed -> _substitute_typevars)
+ImplMethSubst(recv, v) ==
+    LET root == ImplRoot(recv.c) IN PSubst(v, GC(root).tps, ImplGBArgs(recv.c, ImplValArgs(recv), root).args)
+\* the generic arguments a value gives the generic class / protocol A.c.  GenericValue.can_assign (value.py:1042-1063)
+\* asks get_generic_args_for_type; for the protocol HasGet the member `get` is compared (type_object.py:166-203
+\* _is_compatible_with_protocol): the argument of HasGet is matched with what the value's get() returns.
+ImplGArgsOf(B, c) ==
+    IF ~(B.k \in {"typed", "generic"} /\ B.c \in GNames) THEN NotFound        \* a literal: no such base, no `get`
+    ELSE IF c = "HasGet" THEN Found(<<ImplMethSubst(B, TV(GC(ImplRoot(B.c)).tps[1]))>>)
+    ELSE ImplGBArgs(B.c, ImplValArgs(B), c)
+IsGParam(A) == A.k = "generic" /\ A.c \in GParamNames
+
 \* type-variable-free annotation against an argument value.  A Callable accepts a function through
 \* Signature.can_assign (return first: signature.py:1475-1481, then the positional parameter: :1505-1523);
 \* anything that has no signature is "not a callable type" (value.py:1769-1771)
 ImplCAX(A0, B) ==
     LET A == Strip(A0)            \* AnnotatedValue.can_assign -> the inner value's (value.py:2601); InitVar[t] is t
-    IN IF A.k = "callable"
+    IN IF IsGParam(A)             \* a generic class / protocol: argument-wise (value.py:1054-1061)
+       THEN LET ga == ImplGArgsOf(B, A.c)
+            IN ga.found /\ Len(ga.args) = Len(A.args) /\ \A i \in 1..Len(A.args) : ImplCA(A.args[i], ga.args[i], FALSE)
+       ELSE IF A.k = "callable"
        THEN /\ B.k = "known" /\ B.o.c = "function" /\ Len(A.ps) = 1
             /\ ImplCA(A.r, Helper(B.o.v).r, FALSE)
             /\ ImplCA(Helper(B.o.v).p, A.ps[1], FALSE)
@@ -617,6 +786,13 @@ ImplParamAccepts(PT, M) ==
 RECURSIVE ImplCAB(_, _)
 ImplCAB(A, B) ==
     IF ~HasTV(A) THEN R(ImplCAX(A, B), << >>)
+    ELSE IF IsGParam(A)                                  \* GBox[T] / HasGet[T]: GenericValue.can_assign value.py:1042-1063
+    THEN LET ga == ImplGArgsOf(B, A.c)
+         IN IF ~ga.found \/ Len(ga.args) # Len(A.args) THEN Fail
+            ELSE LET rs == [i \in 1..Len(A.args) |-> ImplCAB(A.args[i], ga.args[i])]
+                     RECURSIVE cat(_)
+                     cat(i) == IF i > Len(rs) THEN << >> ELSE rs[i].bs \o cat(i + 1)
+                 IN IF \E i \in 1..Len(rs) : ~rs[i].ok THEN Fail ELSE R(TRUE, cat(1))
     ELSE CASE A.k = "typevar" ->                         \* TypeVarValue.can_assign value.py:2192-2199
                 LET bs == <<Lb(A.n, B)>> \o ImplInherent(A.n)
                 IN R(ImplSolve(bs).ok, bs)               \* make_bounds_map :2215-2222
@@ -757,14 +933,13 @@ ImplPerformed(fn, call) ==
     /\ \A i \in 1..Len(call.pos) : ~TypedExpr(call.pos[i])
     /\ \A j \in 1..Len(call.kw) : ~TypedExpr(call.kw[j].o)
 
-ImplCall(fn, call) ==
-    LET ps == ImplSigParams(fn)
-        an == [i \in 1..Len(ps) |-> ImplParamAnn(ps[i])]
+\* check_call_with_bound_args on the signature (ps, ret) whose type variables are tvs
+ImplCallCore(fn, call, ps, ret, tvs) ==
+    LET an == [i \in 1..Len(ps) |-> ImplParamAnn(ps[i])]
         bd == [i \in 1..Len(ps) |-> ImplBoundAt(ps, call, i)]
-        ret == ImplSigRet(fn)
-        n == Len(fn.tvs)
+        n == Len(tvs)
         \* get_default_return (signature.py:1152-1157)
-        dflt == IF HasTV(ret) THEN CSubst(ret, fn.tvs, [j \in 1..n |-> AnyE]) ELSE ret
+        dflt == IF HasTV(ret) THEN CSubst(ret, tvs, [j \in 1..n |-> AnyE]) ELSE ret
     IN IF n = 0                                                              \* signature.py:1271
        THEN Res(ImplNDiag(ps, {i \in 1..Len(ps) : ~ImplParamOK(ps[i], an[i], bd[i])}, call), 0,    \* :1302-1315
                 IF ImplPerformed(fn, call) THEN Known(Cont("NT", [i \in 1..Len(ps) |-> bd[i].val.o])) ELSE ret,
@@ -781,15 +956,72 @@ ImplCall(fn, call) ==
                         solve(tv) == LET bs == SelectSeq(allbs, LAMBDA b : b.tv = tv)
                                      IN IF bs = << >> THEN Solved(AnyG)      \* typevar.py:40
                                         ELSE ImplSolve(bs)
-                        sols == [j \in 1..n |-> solve(fn.tvs[j])]
+                        sols == [j \in 1..n |-> solve(tvs[j])]
                         sg == [j \in 1..n |-> sols[j].sol]
                     IN IF \E j \in 1..n : ~sols[j].ok
                        THEN Res(0, 1, dflt, TRUE, sg)                        \* :1274-1280 "Cannot resolve type variables"
                        ELSE Res(ImplNDiag(ps, {i \in 1..Len(ps) :            \* pass 2, :1287-1300
-                                               ~ImplParamOK(ps[i], CSubst(an[i], fn.tvs, sg), bd[i])}, call),
+                                               ~ImplParamOK(ps[i], CSubst(an[i], tvs, sg), bd[i])}, call),
                                 0,
-                                IF HasTV(ret) THEN CSubst(ret, fn.tvs, sg) ELSE ret,    \* :1281-1282
+                                IF HasTV(ret) THEN CSubst(ret, tvs, sg) ELSE ret,    \* :1281-1282
                                 TRUE, sg)
+
+(***************************************************************************)
+(* Impl: constructors and methods of user-defined generic classes          *)
+(***************************************************************************)
+ImplTpVals(c) == [i \in 1..Len(GC(c).tps) |-> TV(GC(c).tps[i])]
+\* the class whose __init__ the class attribute lookup finds (first along the MRO); a dataclass defines one
+RECURSIVE ImplInitOwner(_)
+ImplInitOwner(c) == IF GC(c).init # "inherit" THEN c ELSE ImplInitOwner(GC(c).base[1].c)
+\* ArgSpecCache._uncached_get_argspec, the inspect.isclass branch (arg_spec.py:857-936):
+\*   type_params = the class's own parameters (:770 get_type_parameters); the call returns C[type_params] or
+\*   TypedValue(C) (:866-870); the constructor is __init__ found on the class (:897), i.e. the one of owner d, whose
+\*   unannotated `self` was given the type d[parameters of d] (arg_spec.py:556-564) and whose other parameters are
+\*   written over d's parameters; make_bound_method + get_signature(self_annotation_value = C[type_params] or
+\*   TypedValue(C)) (:917-933) -> bind_self (signature.py:1946-2002): get_tv_map(d[..], that value) (:1977) asks the
+\*   value for its generic arguments for d (GenericValue.can_assign value.py:1042-1061 -> get_generic_bases) and every
+\*   parameter of d gets that argument as its only lower bound; the solution is substituted into the remaining
+\*   parameters and the return value (:1984-1988).  Type variables left afterwards (the class's own) are solved per call.
+\*   (Bug = "ctor_self_unmatched": for a class without parameters of its own the match is skipped -- sensitivity)
+ImplCtorSig(c) ==
+    LET d == ImplInitOwner(c)
+        unmatched == Bug = "ctor_self_unmatched" /\ GC(c).tps = << >>
+        ga == ImplGBArgs(c, ImplTpVals(c), d)
+        names == IF unmatched THEN << >> ELSE GC(d).tps
+        vals == [i \in 1..Len(names) |-> ImplSolve(<<Lb(names[i], ga.args[i])>>).sol]
+        ips == GC(d).iparams
+        ret0 == IF GC(c).tps # << >> THEN Generic(c, ImplTpVals(c)) ELSE Typed(c)
+    IN [ps |-> [i \in 1..Len(ips) |-> [ips[i] EXCEPT !.ann = PSubst(@, names, vals)]],
+        ret |-> PSubst(ret0, names, vals),
+        tvs |-> IF unmatched THEN GC(d).tps ELSE GC(c).tps]
+\* The value of GBox[int] is no class value the checker has a signature for: signature_from_value gives ANY_SIGNATURE
+\* and the call is not checked (name_check_visitor.py:5567-5571): nothing is reported, the value is Any.
+AnyFA == [k |-> "any", src |-> "from_another"]
+ImplGSig(fn) ==
+    CASE fn.mk \in {"gctor", "gctorget"} -> ImplCtorSig(fn.cls)
+      \* put looked up on the constructed receiver: Box.put with Box's parameter replaced by what the receiver's class
+      \* gives Box (attributes.py:296-335); the receiver C(<canon>) has the value ImplArgVal gives it
+      [] fn.mk = "gmeth" -> [ps |-> <<P("x", ImplMethSubst(ImplArgVal(GI(fn.cls, GCanon(fn.cls))), TV("T")))>>,
+                             ret |-> Known(NONE), tvs |-> << >>]
+      \* the classmethod fetched from a class object is Box.make's own signature whatever subclass it is fetched
+      \* from: nothing replaces T by what the subclass gives Box (known deviation below)
+      [] fn.mk = "gcmeth" -> [ps |-> <<P("x", TV("T"))>>, ret |-> Generic("GBox", <<TV("T")>>), tvs |-> <<"T">>]
+      [] fn.mk = "gspec" -> [ps |-> fn.decl, ret |-> AnyFA, tvs |-> << >>]
+ImplGCall(fn, call) ==
+    LET sig == ImplGSig(fn)
+        r == ImplCallCore(fn, call, sig.ps, sig.ret, sig.tvs)
+    IN CASE fn.mk = "gspec" -> Res(0, 0, AnyFA, FALSE, << >>)
+         \* C(args).get(): the constructor call, then get() on its value (a second, parameterless call on the same
+         \* line: the solution of the first is not observed separately)
+         [] fn.mk = "gctorget" ->
+              Res(r.nia, r.nic, ImplMethSubst(r.inferred, TV(GC(ImplRoot(fn.cls)).tps[1])), FALSE, << >>)
+         [] OTHER -> r
+\* the type variables whose solution the harness can observe for a call of fn
+ImplTvs(fn) == IF fn.mk \in GMks THEN (IF fn.mk = "gctorget" THEN << >> ELSE ImplGSig(fn).tvs) ELSE fn.tvs
+
+ImplCall(fn, call) ==
+    IF fn.mk \in GMks THEN ImplGCall(fn, call)
+    ELSE ImplCallCore(fn, call, ImplSigParams(fn), ImplSigRet(fn), fn.tvs)
 
 (***************************************************************************)
 (* The property, per case                                                  *)
@@ -806,10 +1038,24 @@ MultiMatch(fn, e) ==
     e.ann.k = "union" /\
     Cardinality({i \in 1..Len(e.ann.ms) : HasTV(e.ann.ms[i]) /\ MemberX(e.o, RSubst(e.ann.ms[i], AllObject(fn)))}) >= 2
 Dev_OrBoundIgnored(fn, call) == \E e \in SeqRange(RefExplicit(RefParams(fn), call)) : MultiMatch(fn, e)
-DevClass(fn, call) == IF Dev_OrBoundIgnored(fn, call) THEN "orbound-ignored" ELSE ""
+\* Known deviation: a classmethod fetched from a subclass that fixes the base's type parameter (IntBox.make, class
+\* IntBox(GBox[int]), make(cls, x: T) -> GBox[T]) keeps the free T: IntBox.make('a') is accepted although the declared
+\* parameter type is int.  Known deviation: a call of an explicitly specialised class, GBox[int]('a'), is not checked at all.
+\* Both are predicates over the case only; they excuse only an ACCEPTED call whose arguments do not fit.
+Dev_ClassmethodKeepsFreeTypeVar(fn, call) == fn.mk = "gcmeth" /\ GC(fn.cls).tps = << >>
+Dev_SubscriptedClassCallUnchecked(fn, call) == fn.mk = "gspec"
+DevClass(fn, call) ==
+    IF Dev_OrBoundIgnored(fn, call) THEN "orbound-ignored"
+    ELSE IF Dev_ClassmethodKeepsFreeTypeVar(fn, call) THEN "classmethod-on-specialised-class-keeps-free-typevar"
+    ELSE IF Dev_SubscriptedClassCallUnchecked(fn, call) THEN "subscripted-generic-class-call-unchecked"
+    ELSE ""
 \* the deviation only explains a diagnostic on a call whose arguments fit (and what is inferred for that
 \* diagnosed call); an ACCEPTED call is never excused
-Excused(fn, call, r) == Diagnosed(r) /\ ~RefBad(fn, call) /\ DevClass(fn, call) # ""
+Excused(fn, call, r) ==
+    LET c == DevClass(fn, call)
+    IN IF c = "orbound-ignored" THEN Diagnosed(r) /\ ~RefBad(fn, call)
+       ELSE IF c # "" THEN ~Diagnosed(r) /\ RefBad(fn, call)
+       ELSE FALSE
 
 \* (1) diagnosed exactly when some argument does not fit; for a non-generic function the
 \*     diagnostic is the incompatible-argument one
@@ -907,7 +1153,8 @@ AddPos ==
     /\ LET ps == RefParams(FnOf(case.fn))
            i == Len(case.pos) + 1
        IN /\ i <= (IF HasKind(ps, "va") THEN NPk(ps) + MaxPos ELSE NPk(ps))
-          /\ \E j \in 1..Len(PosChoices(ps, i)) : case' = [case EXCEPT !.pos = Append(@, PosChoices(ps, i)[j])]
+          /\ LET ch == IF case.fn \in GenIds THEN (IF i <= NPk(ps) THEN GChoices(ps[i].ann) ELSE LitsG) ELSE PosChoices(ps, i)
+             IN \E j \in 1..Len(ch) : case' = [case EXCEPT !.pos = Append(@, ch[j])]
     /\ UNCHANGED <<stage, ta, tb, ob>>
 
 \* keywords are added in the order of fn.kws (one representative per set of keyword names)
@@ -916,8 +1163,9 @@ AddKw ==
     /\ stage = "args" /\ Len(case.kw) < MaxKw /\ NArgs(case) < MaxArgs
     /\ LET fn == FnOf(case.fn)
            last == IF case.kw = << >> THEN 0 ELSE KwIndex(fn, case.kw[Len(case.kw)].name)
-       IN \E j \in (last + 1)..Len(fn.kws), m \in 1..Len(Lits) :
-            case' = [case EXCEPT !.kw = Append(@, [name |-> fn.kws[j], o |-> Lits[m]])]
+       IN \E j \in (last + 1)..Len(fn.kws) :
+            LET ch == IF fn.id \in GenIds THEN GChoices(RefKwDecl(RefParams(fn), fn.kws[j])) ELSE Lits
+            IN \E m \in 1..Len(ch) : case' = [case EXCEPT !.kw = Append(@, [name |-> fn.kws[j], o |-> ch[m]])]
     /\ UNCHANGED <<stage, ta, tb, ob>>
 
 Finish ==
@@ -954,7 +1202,10 @@ InvResult == CDone => (ResultOK(TheFn, case, TheRes, RefResult(TheFn, case)) \/ 
 InvDiagnosisStrict == CDone => DiagnosisOK(TheFn, case, TheRes)
 InvSolution == CDone => SolutionOK(TheFn, case, TheRes)
 \* the two descriptions of binding agree on which parameters a call fills (the model binds what CPython binds)
-InvBindAgree == CDone => ImplSigParams(TheFn) = RefParams(TheFn)
+ParamShape(ps) == [i \in 1..Len(ps) |-> <<ps[i].name, ps[i].kind, ps[i].dflt>>]
+InvBindAgree == (CDone /\ TheFn.mk \notin GMks) => ImplSigParams(TheFn) = RefParams(TheFn)
+\* (kept apart: Calls.cov.cfg checks InvBindAgree under -coverage, whose bookkeeping inlines every operator it reaches)
+InvGBindAgree == (CDone /\ TheFn.mk \in GMks) => ParamShape(ImplGSig(TheFn).ps) = ParamShape(RefParams(TheFn))
 
 SDone == stage = "sdone"
 TheSess == [i \in 1..Len(case.sess) |-> SessCalls[case.sess[i]]]
